@@ -57,8 +57,12 @@ WHandle(w) == /\ wk[w] > 0
 Unsub == /\ AllowUnsub /\ ~unsubRet
          /\ interest' = FALSE /\ pending' = <<>> /\ quit' = TRUE /\ unsubRet' = TRUE
          /\ UNCHANGED <<nextId, kind, cb, workC, wk, delivered, acked, late>>
+\* SubscribeAgain: the transport is asked to subscribe to another topic while it is subscribed.  It carries one subscription: the
+\* call is rejected and is inert - in particular it creates no interest in the other topic, whose messages are "foreign" and
+\* stay so (OnlyOk).  (The drivers make the call, publish on both topics and watch the first topic's callback.)
+SubscribeAgain == interest /\ ~unsubRet /\ UNCHANGED vars
 Sys == CbTake \/ CbPush \/ \E w \in Workers : WQuit(w) \/ WTake(w) \/ WHandle(w)
-Next == (\E k \in Kinds : Publish(k)) \/ Unsub \/ Sys
+Next == (\E k \in Kinds : Publish(k)) \/ Unsub \/ SubscribeAgain \/ Sys
 Spec == Init /\ [][Next]_vars /\ WF_vars(Sys)
 \* ---------------- C07 ----------------
 InSeq(s, x) == \E i \in 1..Len(s) : s[i] = x
